@@ -1138,11 +1138,22 @@ class Path:
         for (u, v) in ((a, b), (b, a)):
             if is_z3(u):
                 sh = T.shl.get(u.get_id())
+                if sh is None and theory.is_app_of(u, theory.pow2):
+                    sh = (1, u.arg(0))          # (1 << k) | v
                 if sh is not None:
                     k = sh[1]
                     vv = as_z3int(v)
                     self.oblige('safe[or-disjoint]', 'safe', z3.And(vv >= 0, vv < theory.pow2(k)))
-                    return u + vv
+                    r = u + vv
+                    sh2 = T.shl.get(vv.get_id()) if is_z3(vv) else None
+                    if sh2 is not None:
+                        # (a << k) | (b << j) with j <= k is again a multiple of 2^j: a further `| c` with
+                        # 0 <= c < 2^j is disjoint too (three-field words  s | e | m)
+                        j = sh2[1]
+                        self.oblige('safe[or-fields-ordered]', 'safe', z3.And(as_z3int(j) >= 0, as_z3int(j) <= as_z3int(k)))
+                        T.shl[r.get_id()] = (None, j)
+                        T.keep.append(r)
+                    return r
         raise Unsupported(f'symbolic | of {a} and {b}')
 
     def binop_obj(self, op, a, b):
@@ -1186,6 +1197,12 @@ class Path:
             dn = {ast.Lt: ('__lt__', '__gt__'), ast.LtE: ('__le__', '__ge__'),
                   ast.Gt: ('__gt__', '__lt__'), ast.GtE: ('__ge__', '__le__')}[op]
             NI = ExtV('builtins.NotImplemented')
+            if isinstance(a, SObj) and isinstance(b, SObj) and self._rcomparable(b.cls, a.cls):
+                # @rcomparable(A) on class B (fpy2.utils.decorator) rebinds A's comparison methods:
+                # for an operand of class B they evaluate the reversed comparison  b <rev-op> a
+                m = self.index.find_method(b.cls, dn[1])
+                if m is not None:
+                    return self.call_function(FuncV(m, b), [a], {})
             if isinstance(a, SObj):
                 m = self.index.find_method(a.cls, dn[0])
                 if m is not None:
@@ -1221,6 +1238,17 @@ class Path:
             raise SymRaise(mk_exc('TypeError'))
         r = {ast.Lt: x < y, ast.LtE: x <= y, ast.Gt: x > y, ast.GtE: x >= y}[op]
         return simp(r)
+
+    def _rcomparable(self, bcls, acls) -> bool:
+        """is class `bcls` decorated with @rcomparable(A) for a class A that `acls` derives from?"""
+        for d in getattr(bcls.node, 'decorator_list', []):
+            if isinstance(d, ast.Call) and getattr(d.func, 'id', getattr(d.func, 'attr', None)) == 'rcomparable' \
+                    and len(d.args) == 1 and isinstance(d.args[0], ast.Name):
+                r = self.index.lookup(bcls.module.name, d.args[0].id)
+                if r is not None and r[0] == 'class' and self.index.is_subclass(acls, r[1]) \
+                        and not self.index.is_subclass(acls, bcls):
+                    return True
+        return False
 
     def enum_value(self, e: EnumV):
         vals = self.ex.enum_values(e.cls)
